@@ -1,10 +1,153 @@
 package main
 
 import (
+	"regexp"
+	"sort"
+	"strings"
+
 	"verif/harness/core"
 	g "verif/harness/g6alib"
 )
 
-func matchKnown(q g.Query, base, other obs, all []obs, mode string) string { return "" }
+// ---- known findings (via=signature) ---------------------------------------------------------------------
+//
+// Each known defect is tied to a *plan trigger*: a structural feature of the physical plan under which the
+// defect can show. A disagreement is attributed to a known finding only when
+//   (1) at least one configuration's plan carries no trigger at all, and all such "untainted"
+//       configurations agree with each other (they form the reference), and
+//   (2) every configuration that disagrees with that reference carries the trigger of ONE common finding
+//       (plus that finding's condition on the query text).
+// Anything else — untainted configurations disagreeing among themselves, a disagreeing configuration
+// without trigger — is reported as a new violation.
 
-func pinned(r *core.Run) {}
+type trigger struct {
+	sig  string
+	has  func(q g.Query, plan string) bool
+	what string
+}
+
+var tupleCmpRe = regexp.MustCompile(`MergeJoin\n[^\n]*cmp: \(\([^()\n]*, [^()\n]*\) = \(`)
+
+// rangeHeapOnIndex: a [LeftOuter]RangeHeapJoin whose value side (first relational child) is not a Sort,
+// i.e. the order comes from an index scan that replaced the child (and with it the child's filters).
+func rangeHeapOnIndex(plan string) bool {
+	lines := strings.Split(plan, "\n")
+	for i, l := range lines {
+		if !strings.Contains(l, "RangeHeapJoin") {
+			continue
+		}
+		// children are the following lines one level deeper; the first is the join condition
+		seenCond := false
+		for _, c := range lines[i+1:] {
+			t := strings.TrimLeft(c, " │├└─")
+			if t == "" {
+				continue
+			}
+			if !seenCond {
+				seenCond = true
+				continue
+			}
+			if !strings.HasPrefix(t, "Sort(") {
+				return true
+			}
+			break
+		}
+	}
+	return false
+}
+
+var accessRe = regexp.MustCompile(`IndexedTableAccess\((\w+)\)|name: (\w+)`)
+
+// sameTableTwice: some base table is read by two or more access nodes of the plan (self join, or a table
+// that also appears inside a subquery).
+func sameTableTwice(plan string) bool {
+	n := map[string]int{}
+	for _, m := range accessRe.FindAllStringSubmatch(plan, -1) {
+		t := m[1] + m[2]
+		n[t]++
+		if n[t] >= 2 {
+			return true
+		}
+	}
+	return false
+}
+
+var triggers = []trigger{
+	{"not-in-null-merge-or-lookup-join", func(q g.Query, p string) bool {
+		return q.Has("sub:not-in") && (strings.Contains(p, "LeftOuterMergeJoin") || strings.Contains(p, "LeftOuterLookupJoin"))
+	},
+		"x NOT IN (subquery) planned as LeftOuterMergeJoin / LeftOuterLookupJoin + IS NULL filter (these two have no ExcludingNulls variant) returns the unmatched outer rows even when the subquery yields a NULL (DESIGN F9)"},
+	{"rangeheap-indexscan-drops-filter", func(q g.Query, p string) bool { return rangeHeapOnIndex(p) },
+		"RangeHeapJoin whose value side is read in index order (sort eliminated) loses that side's single-table WHERE/ON filters"},
+	{"mergejoin-multicol-key-null", func(q g.Query, p string) bool { return tupleCmpRe.MatchString(p) },
+		"MergeJoin on a multi-column key loses matches after a row with NULL in a non-leading key column"},
+	{"sort-eliminated-by-other-alias-index", func(q g.Query, p string) bool {
+		return q.Has("order-by-all") && !strings.Contains(p, "Sort(") && !strings.Contains(p, "TopN(") && sameTableTwice(p)
+	},
+		"ORDER BY x.col on a query that reads the same table under two aliases: the Sort is dropped because ANOTHER alias of that table is read in index order of col"},
+	{"concat-lookup-drops-filter", func(q g.Query, p string) bool { return strings.Contains(p, "Concat") },
+		"lookup join with an OR condition (Concat of two index lookups) on a table that also has a single-table WHERE filter: the filter disappears"},
+}
+
+func taintsOf(q g.Query, plan string) []string {
+	var out []string
+	for _, t := range triggers {
+		if t.has(q, plan) {
+			out = append(out, t.sig)
+		}
+	}
+	return out
+}
+
+func sameOutcome(q g.Query, a, b g.Outcome) bool {
+	if !a.SameMultiset(b) {
+		return false
+	}
+	if q.Ordered && a.OK() && !core.SameStrings(a.Seq, b.Seq) {
+		return false
+	}
+	return true
+}
+
+// matchKnown attributes a disagreement to a known finding (see the rule above) or returns "".
+func matchKnown(q g.Query, base, other obs, all []obs, mode string) string {
+	var ref *obs
+	for i := range all {
+		if len(taintsOf(q, all[i].Plan)) > 0 {
+			continue
+		}
+		if ref == nil {
+			ref = &all[i]
+		} else if !sameOutcome(q, ref.Out, all[i].Out) {
+			return "" // untainted configurations disagree: new violation
+		}
+	}
+	if ref == nil || !ref.Out.OK() {
+		return ""
+	}
+	common := map[string]int{}
+	ndiff := 0
+	for i := range all {
+		if sameOutcome(q, ref.Out, all[i].Out) {
+			continue
+		}
+		if all[i].Out.Panic != nil {
+			return ""
+		}
+		ndiff++
+		for _, t := range taintsOf(q, all[i].Plan) {
+			common[t]++
+		}
+	}
+	var sigs []string
+	for s, n := range common {
+		if n == ndiff {
+			sigs = append(sigs, s)
+		}
+	}
+	if ndiff == 0 || len(sigs) == 0 {
+		return ""
+	}
+	sort.Strings(sigs)
+	return sigs[0]
+}
